@@ -300,7 +300,9 @@ namespace link_layer {
     template < class BufferedRadio, class ReceiveCallbacks, std::size_t MTUSize >
     void ll_l2cap_sdu_buffer< BufferedRadio, ReceiveCallbacks, MTUSize >::free_ll_l2cap_received()
     {
-        if (receive_buffer_used_)
+        // A completely reassembled SDU is always handed out first. If there is only a partly reassembled SDU, the
+        // PDU that was handed out is a link layer control PDU from the radio's buffer
+        if ( receive_buffer_used_ != 0 && receive_size_ == 0 )
         {
             receive_buffer_used_ = 0;
             receive_size_ = 0;
